@@ -161,9 +161,13 @@ fn translate_position(input: &[u8], index: usize) -> (usize, usize) {
     };
     let line = input[0..line_start].iter().filter(|b| **b == b'\n').count();
 
-    let column = std::str::from_utf8(&input[line_start..=index])
-        .map(|s| s.chars().count() - 1)
-        .unwrap_or_else(|_| index - line_start);
+    // Count the characters that start before the one `index` points into. `index` may sit on any
+    // byte of a multi-byte character, so count leading bytes rather than decode the slice.
+    let column = input[line_start..=index]
+        .iter()
+        .filter(|b| (**b as i8) >= -0x40)
+        .count()
+        .saturating_sub(1);
     let column = column + column_offset;
 
     (line, column)
